@@ -9,9 +9,14 @@ B  expression trees (depth <= 3) over struct types: real `Expr::super_image` vs 
 C  hull lemmas with SYMBOLIC boxes for the integer arithmetic kernels (non-linear integer arithmetic): on each sign
    piece the kernel's value lies between the min and max of its four corner values.
 D  aggregates on lists of <= 3 symbolic elements against the real `Aggregate::super_image`.
+E  sin / cos / exp / ln / log / sqrt: the MIR kernel applies an uninterpreted libm function to its argument; on a grid of
+   concrete argument intervals (every multiple of pi/2 straddled asymmetrically, random offsets and widths) the solver is
+   given the piecewise-monotone envelope of that function (a mathematical fact, end values from libm, tolerance 1e-9) and
+   searches every point x of the interval for a value outside the real propagated image. A sat answer is a sub-interval;
+   the real kernel is probed on it (model point, end and critical points) and only a reproduced point is reported.
 Counterexamples are replayed with the real Function::value / Expr::value / Aggregate::value and DataType::contains.
 """
-import os, sys, json, random, itertools, fractions
+import os, sys, json, random, itertools, fractions, math, re
 sys.path.insert(0, os.path.join(os.path.dirname(os.path.abspath(__file__)), "..", "lib"))
 import mir, smt, kern, driver, gen, exprsem, dtsem
 from common import Check, seed
@@ -300,6 +305,102 @@ def main():
             queries.append(dict(id=qid, script="\n".join(decls + ["(assert %s)" % x for x in pre + [lnot(inb)]]), values=xs, solvers=["cvc5", "z3new", "z3"]))
             meta[qid] = dict(agg=a, et=et, sz=sz, n=n, I=I, image_s=ans.get("s"), xs=xs, isint=isint)
 
+    # ------------------------------------------------------------------ E: transcendental kernels (math mode, envelope axioms)
+    # sin / cos / exp / ln / log / sqrt stay uninterpreted for the solver; what it is told about them is the mathematical
+    # fact that they are monotone between consecutive critical points, instantiated on the concrete argument interval
+    # (numeric end values from libm, tolerance 1e-9). The point x stays symbolic: the verdict is over every x of the interval.
+    TOL = fractions.Fraction(1, 10 ** 9)
+    def crit(fname, a, b):
+        if fname in ("Sin", "Cos"):
+            off = math.pi / 2 if fname == "Sin" else 0.0
+            k0 = math.ceil((a - off) / math.pi)
+            cs = []
+            k = k0
+            while off + k * math.pi < b and len(cs) < 64:
+                c = off + k * math.pi
+                if c > a:
+                    cs.append(c)
+                k += 1
+            return cs
+        return []
+    PYF = dict(Sin=math.sin, Cos=math.cos, Exp=math.exp, Ln=math.log, Log=math.log10, Sqrt=math.sqrt)
+    tgrid = []
+    rnd_e = random.Random(seed() + 17)
+    for j in range(-8, 9):
+        c = j * math.pi / 2
+        for d1, d2 in ((0.2, 1.3), (1.3, 0.2), (0.5, 0.5), (0.1, 3.5), (3.5, 0.1), (2.0, 5.0), (0.01, 0.02)):
+            tgrid.append(("Sin", c - d1, c + d2))
+            tgrid.append(("Cos", c - d1, c + d2))
+    for _ in range(40 if tier == "quick" else 600):
+        a = rnd_e.uniform(-30, 30)
+        w = rnd_e.choice([0.05, 0.7, 1.6, 3.0, 4.5, 6.0, 7.0])
+        tgrid.append((rnd_e.choice(["Sin", "Cos"]), a, a + w * rnd_e.uniform(0.5, 1.0)))
+    for a, b in ((-3.0, 2.0), (0.0, 1.0), (-700.0, -1.0), (1.0, 700.0), (0.5, 0.5), (-0.25, 10.0)):
+        tgrid.append(("Exp", a, b))
+    for a, b in ((0.5, 2.0), (1.0, 1.0), (1e-3, 1e6), (2.0, 1e300), (1e-300, 1.0)):
+        tgrid.append(("Ln", a, b)); tgrid.append(("Log", a, b)); tgrid.append(("Sqrt", a, b))
+    tgrid.append(("Sqrt", 0.0, 4.0))
+    t_ans = driver.parallel_batch([dict(op="expr_super_image", expr=fn(f, col("x")), dt=driver.t_struct([("x", driver.t_float((a, b)))])) for f, a, b in tgrid], workers=12, timeout=30.0)
+    nE = 0
+    for ti, ((f, a, b), ans) in enumerate(zip(tgrid, t_ans)):
+        if "ok" not in ans:
+            if "panic" in ans:
+                skipped["super_image panics (C18)"] = skipped.get("super_image panics (C18)", 0) + 1
+            else:
+                ck.violation("expr=super_image-fails-but-value-exists/top=%s" % f, "range propagation of %s fails on float[%r, %r]: %s" % (f, a, b, ans.get("err")), dict(f=f, a=a, b=b))
+            continue
+        I = ans["ok"]
+        base_I = I["of"] if I["t"] == "Optional" else I
+        if base_I["t"] != "Float":
+            skipped["image of type " + base_I["t"]] = skipped.get("image of type " + base_I["t"], 0) + 1
+            continue
+        name = bankm.kernel_name(f, 0)
+        if name is None:
+            ck.inconclusive("kernel of %s not found" % f)
+            continue
+        try:
+            inst = kern.Kernel(fns, name, "math").inst(["x"])
+        except mir.NotTranslatable as ex:
+            ck.inconclusive("kernel of %s not translatable: %s" % (f, ex))
+            continue
+        ufs = set(re.findall(r"\((uf_\w+) x(?: [0-9.]+)?\)", inst["val"].t))
+        if f == "Sqrt":
+            app = None
+        elif len(ufs) != 1 or {"Sin": "uf_sin", "Cos": "uf_cos", "Exp": "uf_exp", "Ln": "uf_ln", "Log": "uf_log"}[f] not in ufs:
+            # the kernel no longer applies the expected libm function to its argument: nothing is known about it -> the
+            # envelope below does not constrain it and the query reports the first point (sound: uninterpreted)
+            app = None
+        else:
+            app = re.search(r"\(uf_\w+ x(?: [0-9.]+)?\)", inst["val"].t).group(0)
+        fa, fb = fractions.Fraction(a), fractions.Fraction(b)
+        pts = [a] + crit(f, a, b) + [b]
+        env = []
+        if app is not None:
+            for c0, c1 in zip(pts, pts[1:]):
+                v0, v1 = PYF[f](c0), PYF[f](c1)
+                if f in ("Sin", "Cos"):
+                    # critical values are exactly +-1
+                    v0 = round(v0) if (c0 != a) else v0
+                    v1 = round(v1) if (c1 != b) else v1
+                lo_, hi_ = fractions.Fraction(min(v0, v1)) - TOL * max(1, abs(fractions.Fraction(min(v0, v1)))), fractions.Fraction(max(v0, v1)) + TOL * max(1, abs(fractions.Fraction(max(v0, v1))))
+                env.append("(=> (and (<= %s x) (<= x %s)) (and (<= %s %s) (<= %s %s)))" % (smt.real_lit(fractions.Fraction(c0)), smt.real_lit(fractions.Fraction(c1)), smt.real_lit(lo_), app, app, smt.real_lit(hi_)))
+        # membership with the same relative slack on the image side (float rounding of libm is outside the claim)
+        alts = []
+        for lo_b, hi_b in base_I["iv"]:
+            flo, fhi = kern.bits_to_float(lo_b), kern.bits_to_float(hi_b)
+            c_ = []
+            if flo > -1.7e308:
+                L = fractions.Fraction(flo); c_.append("(>= y %s)" % smt.real_lit(L - 2 * TOL * max(1, abs(L))))
+            if fhi < 1.7e308:
+                H = fractions.Fraction(fhi); c_.append("(<= y %s)" % smt.real_lit(H + 2 * TOL * max(1, abs(H))))
+            alts.append(land(c_))
+        decls = ["(declare-const x Real)", "(declare-const y Real)"] + inst["decls"]
+        pre = ["(<= %s x)" % smt.real_lit(fa), "(<= x %s)" % smt.real_lit(fb), "(= y %s)" % inst["val"].t] + inst["side"] + env
+        qid = "E/%d/%s" % (ti, f)
+        queries.append(dict(id=qid, script="\n".join(decls + ["(assert %s)" % z for z in pre + [lnot(lor(alts))]]), values=["x", "y"], solvers=["z3new", "cvc5", "z3"]))
+        meta[qid] = dict(trans=f, a=a, b=b, I=I, image_s=ans.get("s"), pts=pts)
+        nE += 1
+
     results = smt.solve_all(queries, tq, workers=14, progress=2000)
     ck.count(results)
     part_time = {}
@@ -326,6 +427,31 @@ def main():
                 ck.violation("hull=%s/not-monotone-on-piece" % f, "%s(%d, %d) = %s is outside the image %s of the box [%d,%d]x[%d,%d]" % (f, mv["x"], mv["y"], rv.get("s"), si.get("s"), mv["x1"], mv["x2"], mv["y1"], mv["y2"]), dict(model=mv))
             else:
                 ck.note("hull lemma %s piece %s: the kernel leaves the corner hull at %s but the real image of that box still contains the value (the declared partition is finer): %s" % (f, info["piece"], mv, si.get("s")))
+            continue
+        if "trans" in info:
+            # the solver's x is one point of a sub-interval where the envelope allows a value outside the image; the real
+            # kernel decides: probe the model point, the end points and the critical points of the interval it came from
+            f = info["trans"]
+            mx = r["model"].get("x")
+            cand = [float(fractions.Fraction(mx))] if mx is not None and not isinstance(mx, tuple) else []
+            cand += [p for p in info["pts"]] + [(p + q) / 2 for p, q in zip(info["pts"], info["pts"][1:])]
+            hit = None
+            for xv in cand:
+                if not (info["a"] <= xv <= info["b"]):
+                    continue
+                rv = d.call(dict(op="expr_value", expr=fn(f, col("x")), v={"t": "Struct", "fields": [["x", driver.v_float(xv)]]}))
+                if "ok" not in rv:
+                    continue
+                val_ = rv["ok"]["v"] if rv["ok"].get("t") == "Optional" and rv["ok"].get("v") is not None else rv["ok"]
+                inside = d.call(dict(op="contains", dt=info["I"], values=[val_])).get("ok", [None])[0]
+                if inside is False:
+                    hit = (xv, rv.get("s"))
+                    break
+            if hit:
+                ck.violation("expr=value-outside-image/top=%s/transcendental" % f, "%s(%r) = %s is outside the image %s propagated for float[%r, %r]" % (f, hit[0], hit[1], info["image_s"], info["a"], info["b"]),
+                             dict(f=f, x=hit[0], interval=[info["a"], info["b"]], image=info["I"]))
+            else:
+                ck.inconclusive("transcendental counterexample %s (%s on [%r, %r], image %s, model x=%s) did not reproduce on the probed points" % (r["id"], f, info["a"], info["b"], info["image_s"], mx))
             continue
         if "agg" in info:
             vals = []
@@ -390,10 +516,10 @@ def main():
     d.close()
     cov = dict(
         states=len(queries), transitions=len(queries), traces_validated_against_impl=replayed,
-        function_grid_queries=nA, expression_tree_queries=nBq, hull_lemmas=sum(1 for q in queries if q["id"].startswith("C/")), aggregate_queries=sum(1 for q in queries if q["id"].startswith("D/")),
+        function_grid_queries=nA, expression_tree_queries=nBq, hull_lemmas=sum(1 for q in queries if q["id"].startswith("C/")), aggregate_queries=sum(1 for q in queries if q["id"].startswith("D/")), transcendental_queries=nE,
         skipped=skipped,
         bounds=dict(points="every point of each argument box (64-bit bit-vectors, IEEE doubles, NULL flags)", types="boundary grid (enumerated)", expression_depth="<= 3", list_length="<= 3",
-                    outside=["text, bytes, date/time, regex, hashing functions", "exp / ln / log / sqrt / pow / sin / cos (uninterpreted: their monotonicity is libm's)",
+                    outside=["text, bytes, date/time, regex, hashing functions", "pow, and libm's own accuracy: sin / cos / exp / ln / log / sqrt are decided against a piecewise-monotone envelope (tolerance 1e-9) on a grid of concrete argument intervals (part E)",
                              "inputs on which a kernel panics (division by zero): excluded here and reported by C18", "float rounding inside aggregates (reals) and in part C"]),
         evaluations=len(queries), distinct_nontrivial=len(set(q["script"] for q in queries)),
     )
